@@ -1383,7 +1383,5 @@ Token *preprocess(Token *tok) {
     join_adjacent_string_literals(tok);
   }
 
-  for (Token *t = tok; t; t = t->next)
-    t->line_no += t->line_delta;
   return tok;
 }
